@@ -349,9 +349,111 @@ impl Space for Bracket {
 #[path = "c08_names.rs"]
 mod names;
 
+/// Shared-formula groups: a master cell with the group's text and two children that only carry the expanded
+/// view text (what the reader produces for <f t="shared" si=..>).  Every cell of the group must follow the
+/// same rules as an ordinary formula, also when the group lives on a sheet OTHER than the edited one.
+struct SharedGroups {
+    cases: Vec<(&'static str, Qual)>,
+    full: Vec<Edit>,
+}
+impl SharedGroups {
+    fn master(q: &Qual) -> F {
+        // <q>B2*2
+        F::Bin(2, false, Box::new(F::L(Leaf::Ref(Ref { q: q.clone(), k: RK::Cell { c: p(2, false), r: p(2, false) } }))), Box::new(F::L(Leaf::Lit { text: "2", tag: "num-int", kind: LitKind::Num })))
+    }
+    fn build(placement: &str, q: &Qual) -> (Spreadsheet, Vec<F>) {
+        let mut book = empty_book();
+        let m = Self::master(q);
+        let mut forms = vec![];
+        let ws = book.get_sheet_by_name_mut(placement).unwrap();
+        for k in 0..3u32 {
+            let f = translate_formula(&m, 0, k as i64);
+            let mut obj = umya_spreadsheet::CellFormula::default();
+            obj.set_formula_type(umya_spreadsheet::CellFormulaValues::Shared);
+            obj.set_shared_index(0);
+            if k == 0 {
+                obj.set_text(render(&f).text);
+            } else {
+                obj.set_text_view(render(&f).text);
+            }
+            let c = ws.get_cell_mut((FCELL.0, FCELL.1 + k));
+            c.get_cell_value_mut().set_formula_obj(obj);
+            forms.push(f);
+        }
+        (book, forms)
+    }
+}
+impl Space for SharedGroups {
+    fn len(&self) -> u64 {
+        self.cases.len() as u64
+    }
+    fn describe(&self, i: u64) -> Value {
+        let (pl, q) = &self.cases[i as usize];
+        json!({"kind": "shared-formula-group", "placement": pl, "master": render(&Self::master(q)).text, "cells": "T50 (master), T51, T52 (children with view text only)", "edits": self.full.len()})
+    }
+    fn tags(&self, i: u64) -> Vec<String> {
+        let (_, q) = &self.cases[i as usize];
+        let mut t = vec!["shared-formula-group".to_string(), "ref-rel".to_string()];
+        if let Some(x) = q.tag() {
+            t.push(x.to_string());
+        }
+        t
+    }
+    fn run(&self, i: u64, sink: &mut Sink) {
+        let (placement, q) = self.cases[i as usize].clone();
+        let (book, forms) = match guarded(|| Self::build(placement, &q)) {
+            Ok(x) => x,
+            Err(m) => {
+                sink.violations.push(Violation::new("formula-insert", &format!("panic:{}", panic_class(&m)), &["shared-formula-group"], self.describe(i), m));
+                return;
+            }
+        };
+        for e in &self.full {
+            sink.evaluations += 1;
+            sink.count("transitions", 1);
+            let clause = clause_of(e);
+            let mut b2 = book.clone();
+            let r = guarded(move || {
+                apply(&mut b2, e);
+                let sheet = b2.get_sheet_by_name(placement).unwrap();
+                let mut cells: Vec<&umya_spreadsheet::Cell> = sheet.get_cell_collection().into_iter().filter(|c| c.is_formula()).collect();
+                cells.sort_by_key(|c| (*c.get_coordinate().get_row_num(), *c.get_coordinate().get_col_num()));
+                cells.iter().map(|c| c.get_formula().to_string()).collect::<Vec<String>>()
+            });
+            let case = json!({"kind": "shared-formula-group", "placement": placement, "master": render(&forms[0]).text, "history": [edit_json(e)]});
+            match r {
+                Err(m) => sink.violations.push(Violation::new(clause, &format!("panic:{}", panic_class(&m)), &["shared-formula-group", "ref-rel"], case, m)),
+                Ok(got) => {
+                    sink.obs(&format!("{}\u{1}{:?}", placement, got));
+                    // group cells that were themselves removed by the edit are not expected back
+                    let own_removed = |k: u32| -> bool { !e.insert && e.sheet == placement && if e.axis == Axis::Row { FCELL.1 + k >= e.p && FCELL.1 + k < e.p + e.n } else { FCELL.0 >= e.p && FCELL.0 < e.p + e.n } };
+                    let survivors: Vec<usize> = (0..3usize).filter(|k| !own_removed(*k as u32)).collect();
+                    if got.len() != survivors.len() {
+                        sink.violations.push(Violation::new(clause, "group-cell-count", &["shared-formula-group"], case.clone(), format!("{} formula cells after {:?}, expected {}", got.len(), edit_json(e), survivors.len())));
+                        continue;
+                    }
+                    for (gi, k) in survivors.iter().enumerate() {
+                        let before = render(&forms[*k]);
+                        let exp = render(&shift_formula(&forms[*k], placement, e));
+                        if let Some(d) = compare_axis(&exp, &before, &got[gi], "deleted-target-not-REF", Some(e.axis)) {
+                            let mut tags = d.tags.clone();
+                            tags.push(if *k == 0 { "shared-master" } else { "shared-child" });
+                            sink.violations.push(Violation::new(clause, &d.symptom, &tags, case.clone(), format!("group cell #{} {:?} on {:?}, {}: {}", k, before.text, placement, edit_json(e), d.detail)));
+                        }
+                    }
+                }
+            }
+        }
+    }
+}
+
 pub fn space(tier: Tier, id: &str) -> Option<Box<dyn Space>> {
     let deep = tier == Tier::Thorough;
     match id {
+        "shared" => Some(Box::new(SharedGroups {
+            cases: vec![("Sheet1", Qual::None), ("Sheet1", Qual::Plain("Sheet1")), ("My Sheet", Qual::Plain("Sheet1")), ("My Sheet", Qual::None), ("It's", Qual::Plain("Sheet1"))],
+            full: edits_full(),
+        })),
         "formulas" => Some(Box::new(Formulas { en: main_space(CO, PLAIN, deep, core4()), deep, full: edits_full(), medium: edits_medium(), small: edits_small() })),
         "core" => Some(Box::new(Core { forms: core_formulas(), small: edits_small(), depth: if deep { 4 } else { 3 } })),
         "names" => Some(Box::new(names::Names::new(deep))),
@@ -396,7 +498,7 @@ fn run(ctx: &Ctx) -> i32 {
     }
     let sections: Vec<Value> = main.summary().into_iter().chain(br.summary()).map(|(n, c)| json!({"section": n, "index_range": c})).collect();
     let only = std::env::var("UV_SPACES").unwrap_or_default(); // development knob: run a subset of the spaces
-    let ids: Vec<&'static str> = ["formulas", "core", "names", "bracket"].into_iter().filter(|id| only.is_empty() || only.split(',').any(|x| x == *id)).collect();
+    let ids: Vec<&'static str> = ["formulas", "core", "names", "bracket", "shared"].into_iter().filter(|id| only.is_empty() || only.split(',').any(|x| x == *id)).collect();
     let spaces = ids.iter().map(|id| (*id, space(ctx.tier, id).unwrap())).collect();
     run_e1(
         ctx,
